@@ -1,12 +1,15 @@
 CONSTANTS
-  Procs = {1, 2}
-  Kinds = {"out", "int"}
+  Procs = {1, 2, 3}
+  Kinds = {"out"}
   LKinds = {"key"}
-  Cap <- MCCap
-  Mode = "off"
+  Cap <- MCCap1
+  Mode = "enforce"
   Lazy = TRUE
-  MaxOps = 3
-  MaxHeld = 1
+  MaxOps = 2
+  MaxHeld = 0
+  OpSet = {"debit"}
+  Atomic = FALSE
+  GtBug = FALSE
 SPECIFICATION Spec
 INVARIANTS TypeOK AcceptedNeverExceedsCap ShadowNeverRejects ShadowRecordsCrossing OffCountsNothing RequiredRejectionLatches
   BestEffortDoesNotLatch LatchedIsExhausted RefsOK PublishOnce PublishedWhenQuiescent
